@@ -9,7 +9,7 @@ def run(ctx):
     quick = ctx.tier == "quick"
     ctx.rule = ("descriptor space {count 1/2/5/40} x {numeric, date, time, datetime} x {distinct, all equal, unsorted} x 8 span classes (0, 7-9 ms, 1 s, "
                 "a day, across a month end, leap day, year end, a century) x options {omitted, empty, partial} x direction x algorithm x bounds x ticks "
-                "(every n-th descriptor, seeded concretisation), both back-ends, plus conflict clusters of 150 and 200 labels (200 is the edge of the claim) and one of 400 (beyond it); "
+                "(every n-th descriptor, seeded concretisation), both back-ends, plus conflict clusters of 150 and 200 labels (200 is the edge of the claim), one of 400 (beyond it) and a timeline of 1000 labels (the largest count the claim names); "
                 "non-trivial = every descriptor; distinct by descriptor")
     ctx.assumptions += ["labels carry explicit widths (no LaTeX in the sandbox)",
                         "datetime.time inputs are combined with today's date by the code; they are exercised but not compared across processes"]
@@ -25,6 +25,10 @@ def run(ctx):
             job["clusters"] = [[200, "c200"], [400, "c400"]]      # 200: the edge of the claim; 400: beyond it (known finding)
         if k == 1:
             job["clusters"] = [[150, "c150"]] if quick else [[190, "c190"], [150, "c150"], [199, "c199"]]
+        if k == 2:
+            job["clusters"] = [[1000, "n1000"]]                   # the largest label count the claim names
+        if k == 3 and not quick:
+            job["clusters"] = [[703, "n703"], [1000, "n1000"]]
         jobs.append({"script": "d_timeline.py", "stdin_obj": job})
     recs = []
     for out in core.run_drivers_parallel(jobs):
